@@ -121,3 +121,17 @@ func YieldObjs(kind string, objs []any) {
 	}
 	Point(&Op{Kind: kind, Objs: objs, Alts: func() int { return 1 }, Do: func(int) {}})
 }
+
+// ArmedTimers returns the timers that are armed and have not fired.
+func ArmedTimers() []*Timer {
+	if Killing() {
+		return nil
+	}
+	var out []*Timer
+	for _, t := range S.timers {
+		if !t.Fired && !t.Stop {
+			out = append(out, t)
+		}
+	}
+	return out
+}
